@@ -91,6 +91,31 @@ def linear_extension(ops, rng):
     return order
 
 
+def add_late_exclusions(ops, rng):
+    """Configuration calls after the sectors exist: Model.AddCashFlowIncomeExclusion (public) for flows that the markets
+    and the tax flow book when the model is generated. Part of the declarations, so both twins get them."""
+    first_late = len(ops)
+    for i, o in enumerate(ops):
+        if o['op'] == 'main' or o['op'] == 'SetAttr':
+            first_late = i
+            break
+    cands = []
+    for o in ops[0:first_late]:
+        if o['op'] in ('Household', 'HouseholdWithExpectations'):
+            cands.append((o['id'], 'SUP_' + (o.get('labour') or 'LAB')))
+            cands.append((o['id'], 'T'))
+        elif o['op'] == 'Capitalists':
+            cands.append((o['id'], 'T'))
+        elif o['op'] in ('FixedMarginBusiness', 'FixedMarginBusinessSub', 'FixedMarginBusinessMultiOutput'):
+            cands.append((o['id'], 'DEM_' + (o.get('labour') or 'LAB')))
+        elif o['op'] in ('ConsolidatedGovernment', 'Treasury'):
+            cands.append((o['id'], 'T'))
+    rng.shuffle(cands)
+    for sid, name in cands[0:rng.randint(1, 2)]:
+        ops.insert(first_late, {'op': 'Exclude', 'sector': sid, 'name': name})
+        first_late += 1
+
+
 def generate(seed, tier):
     S = core.Streams(seed)
     fam = S['swarm'].choice(['closed', 'closed', 'closed_fin', 'pc', 'capitalists', 'federated', 'multi_currency',
@@ -103,6 +128,8 @@ def generate(seed, tier):
                 names[k] = v
     ops, info = econgen.gen_program(seed, family=fam, tight=S['swarm'].random() < 0.8, T=S['knobs'].randint(2, 4),
                                     names=names)
+    if S['swarm'].random() < 0.3:
+        add_late_exclusions(ops, S['swarm'])
     for i, op in enumerate(ops):
         op['u'] = i
     order = linear_extension(ops, S['schedule'])
@@ -167,6 +194,8 @@ def execute(case):
     cls = classify_order(case)
     if cls != 'other':
         stats['probes']['business_after_labour_market'] = 1
+    if any(o['op'] == 'Exclude' for o in ops_c):
+        stats['probes']['income_exclusion_registered_after_construction'] = 1
     viol, sa, sb = econprops.twin_check(ops_c, ops_p, ID, 'order-dependence', lambda det: cls, stats=stats)
     # an order that makes construction itself fail (op raising) is also order dependence
     if not viol and len(sb.errors) != len(sa.errors):
